@@ -5,6 +5,7 @@ Imports model files only (no Mathlib, no proofs) so that it can be compiled.
 import Lean.Data.Json
 import NostrRelay.Model.RateLimiter
 import NostrRelay.Model.Notifier
+import NostrRelay.Model.KV
 
 open Lean
 
@@ -62,9 +63,55 @@ def hexList (j : Json) (k : String) : List (List Nat) :=
   (getArr j k).toList.map fun x => fromHex (x.getStr?.toOption.getD "")
 def jHexList (l : List (List Nat)) : Json := Json.arr (l.map (fun b => Json.str (toHex b))).toArray
 
+/-! ### KV -/
+namespace KVD
+open NostrRelay NostrRelay.KV
+
+def optField (j : Json) (k : String) : Option Json :=
+  match j.getObjVal? k with
+  | .ok Json.null => none
+  | .ok v => some v
+  | .error _ => none
+
+def jInt (j : Json) : Int := j.getInt?.toOption.getD 0
+def jHex (j : Json) : Bytes := fromHex (j.getStr?.toOption.getD "")
+def jArr (j : Json) : List Json := (j.getArr?.toOption.getD #[]).toList
+
+def parseEvent (j : Json) : Event :=
+  { id := fromHex (getStr j "id"), pubkey := fromHex (getStr j "pubkey"),
+    createdAt := getInt j "created_at", kind := getInt j "kind",
+    tags := (getArr j "tags").toList.map fun t => (jArr t).map jHex }
+
+def parseFilter (j : Json) : Filter :=
+  { ids := (optField j "ids").map fun v => (jArr v).map jHex,
+    authors := (optField j "authors").map fun v => (jArr v).map jHex,
+    kinds := (optField j "kinds").map fun v => (jArr v).map jInt,
+    since := (optField j "since").map jInt,
+    until_ := (optField j "until").map jInt,
+    limit := (optField j "limit").map fun v => (jInt v).toNat,
+    tags := ((optField j "tags").map jArr |>.getD []).map fun t =>
+      let a := jArr t
+      (jHex (a.getD 0 Json.null), (jArr (a.getD 1 Json.null)).map jHex) }
+
+def parseTask (j : Json) : Task :=
+  if getStr j "t" == "add" then .add (parseEvent (j.getObjVal? "ev" |>.toOption.getD Json.null))
+  else .del (fromHex (getStr j "id"))
+
+partial def idxName : PlanIndex → String
+  | .ids => "ids" | .created => "created_at" | .kinds => "kinds" | .authors => "authors"
+  | .authorkinds => "authorkinds" | .tags => "tags"
+  | .multi a b => "multi(" ++ idxName a ++ "," ++ idxName b ++ ")"
+
+def optNat (o : Option Nat) : Json := match o with | some n => Json.num (JsonNumber.fromNat n) | none => Json.null
+
+def defaultLimit (j : Json) : Option Nat := (optField j "default_limit").map fun v => (jInt v).toNat
+
+end KVD
+
 structure St where
   rlCfg : NostrRelay.RateLimiter.Config := {}
   rl : NostrRelay.RateLimiter.State := {}
+  kv : NostrRelay.KV.Store := NostrRelay.KV.init
 
 def step (st : St) (j : Json) : St × Json :=
   match getStr j "op" with
@@ -77,6 +124,30 @@ def step (st : St) (j : Json) : St × Json :=
   | "rl.dump" => (st, RL.dumpState st.rl)
   | "rl.parseInterval" =>
     (st, match NostrRelay.RateLimiter.parseInterval (getStr j "s") with | some i => Json.num (JsonNumber.fromInt i) | none => Json.str "raise")
+  | "kv.reset" => ({ st with kv := NostrRelay.KV.init }, Json.str "ok")
+  | "kv.task" =>
+    let t := KVD.parseTask (j.getObjVal? "task" |>.toOption.getD Json.null)
+    match NostrRelay.KV.taskBody st.kv t with
+    | some s' => ({ st with kv := s' }, Json.str "ok")
+    | none => (st, Json.str "abort")
+  | "kv.dump" => (st, jHexList (NostrRelay.KV.skeys st.kv))
+  | "kv.get" => (st, Json.bool (NostrRelay.KV.getEvent st.kv (fromHex (getStr j "id"))).isSome)
+  | "kv.plan" =>
+    let f := KVD.parseFilter (j.getObjVal? "filter" |>.toOption.getD Json.null)
+    match NostrRelay.KV.planFilter f (KVD.defaultLimit j) with
+    | none => (st, Json.null)
+    | some p => (st, Json.mkObj [("index", Json.str (KVD.idxName p.index)), ("mats", jHexList p.mats),
+        ("mats2", jHexList p.mats2), ("limit", KVD.optNat p.limit), ("raises", Json.bool p.raises)])
+  | "kv.exec" =>
+    let f := KVD.parseFilter (j.getObjVal? "filter" |>.toOption.getD Json.null)
+    match NostrRelay.KV.planFilter f (KVD.defaultLimit j) with
+    | none => (st, Json.null)
+    | some p =>
+      let all := NostrRelay.KV.executePlan st.kv { p with limit := none }
+      let out := NostrRelay.KV.executePlan st.kv p
+      (st, Json.mkObj [("ids", jHexList out), ("all", jHexList all), ("unordered", Json.bool p.unordered),
+        ("limit", KVD.optNat p.limit)])
+  | "kv.gc" => (st, jHexList (NostrRelay.KV.gcCollect st.kv (getInt j "now").toNat))
   | "nt.read" => (st, jHexList (NostrRelay.Notifier.readLoop 32 (by decide) [] (hexList j "chunks")))
   | "nt.readOld" => (st, jHexList (NostrRelay.Notifier.readLoopOld 32 (by decide) [] (hexList j "chunks")))
   | op => (st, Json.mkObj [("error", Json.str ("unknown op " ++ op))])
